@@ -12,6 +12,7 @@ import (
 	"github.com/ovrclk/akash/provider/session"
 	"github.com/ovrclk/akash/pubsub"
 	atypes "github.com/ovrclk/akash/types"
+	"github.com/ovrclk/akash/util/veriftrace"
 	mquery "github.com/ovrclk/akash/x/market/query"
 	mtypes "github.com/ovrclk/akash/x/market/types"
 	"github.com/tendermint/tendermint/libs/log"
@@ -187,6 +188,7 @@ loop:
 	for {
 		select {
 		case err := <-s.lc.ShutdownRequest():
+			veriftrace.Emit("cluster-service", "", "shutdown")
 			s.lc.ShutdownInitiated(err)
 			break loop
 
@@ -203,6 +205,7 @@ loop:
 
 				if _, err := s.inventory.lookup(ev.LeaseID.OrderID(), mgroup); err != nil {
 					s.log.Error("error looking up manifest", "err", err, "lease", ev.LeaseID, "group-name", mgroup.Name)
+					veriftrace.Emit("cluster-service", ev.LeaseID.String(), "manifest-dropped")
 					break
 				}
 
@@ -210,17 +213,21 @@ loop:
 				if manager := s.managers[key]; manager != nil {
 					if err := manager.update(mgroup); err != nil {
 						s.log.Error("updating deployment", "err", err, "lease", ev.LeaseID, "group-name", mgroup.Name)
+						veriftrace.Emit("cluster-service", ev.LeaseID.String(), "update-rejected")
 					}
+					veriftrace.Emit("cluster-service", ev.LeaseID.String(), "update-routed", "mgroup", mgroup)
 					break
 				}
 
 				manager := newDeploymentManager(s, ev.LeaseID, mgroup)
 				s.managers[key] = manager
+				veriftrace.Emit("cluster-service", ev.LeaseID.String(), "manager-created", "mgroup", mgroup)
 
 			case mtypes.EventLeaseClosed:
 				s.teardownLease(ev.ID)
 
 			}
+			veriftrace.Emit("cluster-service", "", "event-done", "ev", ev)
 
 		case ch := <-s.statusch:
 
@@ -238,6 +245,7 @@ loop:
 			}
 
 			delete(s.managers, mquery.LeasePath(dm.lease))
+			veriftrace.Emit("cluster-service", dm.lease.String(), "manager-done")
 		}
 		s.updateDeploymentManagerGauge()
 	}
@@ -247,6 +255,7 @@ loop:
 	for _, manager := range s.managers {
 		if manager != nil {
 			manager := <-s.managerch
+			veriftrace.Emit("cluster-service", manager.lease.String(), "manager-drained")
 			s.log.Debug("manager done", "lease", manager.lease)
 		}
 	}
@@ -260,7 +269,9 @@ func (s *service) teardownLease(lid mtypes.LeaseID) {
 	if manager := s.managers[key]; manager != nil {
 		if err := manager.teardown(); err != nil {
 			s.log.Error("tearing down lease deployment", "err", err, "lease", lid)
+			veriftrace.Emit("cluster-service", lid.String(), "teardown-rejected")
 		}
+		veriftrace.Emit("cluster-service", lid.String(), "teardown-routed")
 		return
 	}
 
@@ -271,6 +282,7 @@ func (s *service) teardownLease(lid mtypes.LeaseID) {
 		if err != nil && !errors.Is(errReservationNotFound, err) {
 			s.log.Error("unreserve failed", "lease", lid, "err", err)
 		}
+		veriftrace.Emit("cluster-service", lid.String(), "teardown-unmanaged")
 	}
 }
 
